@@ -346,7 +346,12 @@ class MessageManager(ClientLike):
                     )
 
         else:
-            module.mod_id = self.assign_module_id()
+            try:
+                module.mod_id = self.assign_module_id()
+            except RuntimeError:
+                # No dynamic id is free: refuse this client, keep serving the others
+                self.remove_module(module)
+                return False
 
         module.connected = True
 
